@@ -975,7 +975,9 @@ def run_multiform_stream(ck, n, variants):
         A, B = MF.from_qubitop(mk_qop(TQ, ta), nq), MF.from_qubitop(mk_qop(TQ, tb), nq)
         snapA = (A.integer.copy(), A.factors.copy(), dict(A.terms), A.binary.copy())
         snapB = (B.integer.copy(), B.factors.copy(), dict(B.terms), B.binary.copy())
-        case = {"n_qubits": nq, "a": canon_qterms(ta), "b": canon_qterms(tb)}
+        case = {"n_qubits": nq, "a": canon_qterms(ta), "b": canon_qterms(tb),
+                "A_terms": [[[list(f) for f in w], [complex(v).real, complex(v).imag]] for w, v in ta.items()],
+                "B_terms": [[[list(f) for f in w], [complex(v).real, complex(v).imag]] for w, v in tb.items()]}
         # ---- product
         try:
             with np_product_shim(shim):
@@ -1233,6 +1235,30 @@ def replay(data):
         c = _C()
         probes(c)
         return 1 if data.get("signature") in c.vs else 0
+    if r.get("kind") == "multiform" and "A_terms" in r:
+        import numpy as np
+        from tangelo.toolboxes.operators import QubitOperator as TQ
+        from tangelo.toolboxes.operators.multiformoperator import MultiformOperator as MF, do_commute
+        ta = {tuple((int(q), p_) for q, p_ in w): complex(*v) for w, v in r["A_terms"]}
+        tb = {tuple((int(q), p_) for q, p_ in w): complex(*v) for w, v in r["B_terms"]}
+        MA, MB = MF.from_qubitop(mk_qop(TQ, ta), r["n_qubits"]), MF.from_qubitop(mk_qop(TQ, tb), r["n_qubits"])
+        bad = 0
+        want = [all(ref_words_commute(a, b) for b in tb) for a in list(MA.terms)]
+        got_terms = [bool(x) for x in do_commute(MA, MB, term_resolved=True)]
+        got_all = bool(do_commute(MA, MB))
+        print("A =", r["a"], "B =", r["b"])
+        print("do_commute term_resolved: got", got_terms, "expected", want, "| operator level: got", got_all, "expected", all(want))
+        bad += got_terms != want or got_all != all(want)
+        try:
+            with np_product_shim(not hasattr(np, "product")):
+                P = MA * MB
+            sym = mk_qop(TQ, ta) * mk_qop(TQ, tb)
+            print("array product", canon_qterms(P.terms), "| symbolic product", canon_qterms(sym.terms))
+            bad += canon_qterms(P.terms) != canon_qterms(sym.terms)
+        except Exception as e:
+            print("A * B raised %r" % e)
+            bad += 1
+        return 1 if bad else 0
     if r.get("kind") == "commute" and "A_words" in r:
         from tangelo.toolboxes.operators import QubitOperator as TQ
         from tangelo.toolboxes.operators.multiformoperator import MultiformOperator as MF, do_commute
